@@ -150,7 +150,17 @@ func vDelete(c *Cache[byte], model []vEnt) []vEnt {
 
 func vExpire(c *Cache[byte], model []vEnt) ([]vEnt, bool) {
 	now := vTimeNZ()
-	out := c.Expire(nil, now)
+	// callers accumulate expired entries over several sweeps: out may be non-empty on entry
+	var pre []Entry[byte]
+	if vBool() {
+		pre = append(pre, Entry[byte]{Key: []byte{0xEE, 0xEE}})
+	}
+	out := c.Expire(pre, now)
+	if len(out) < len(pre) || (len(pre) == 1 && len(out[0].Key) != 2) {
+		vAssert(false, "expire-dropped-the-callers-entries")
+		return model, false
+	}
+	out = out[len(pre):]
 	var keep []vEnt
 	n := 0
 	for i := range model {
@@ -228,6 +238,34 @@ func VH_C18_cacheFullBuckets() bool {
 	for i := 0; i < 2; i++ {
 		model, ok = vPut(c, locus, model, 1)
 		if !ok || !vCheckCache(c, locus, model, 8) {
+			return false
+		}
+	}
+	return true
+}
+
+// vScripts are fixed 4-operation shapes (P put, D delete, E expire) explored with symbolic
+// keys, values and instants: deeper than cacheOps' 3 free operations at a fraction of the paths.
+var vScripts = [5]string{"PPDE", "PPEE", "PDPE", "PEPE", "PPEP"}
+
+//verif: unwind=24 cover=evicted,deleted,expired map_perm_max=1 bounds="locus 0..1 bytes, max 1..3, minPerBucket 0, five fixed 4-operation scripts (PPDE PPEE PDPE PEPE PPEP) with symbolic 1-byte keys, values and 3-bit instants"
+func VH_C18_cacheScripts() bool {
+	locus := vBytes(1)
+	max := vInt(1, 3)
+	c := NewCache[byte](locus, max, 0)
+	var model []vEnt
+	script := vScripts[vInt(0, 4)]
+	ok := true
+	for i := 0; i < len(script); i++ {
+		switch script[i] {
+		case 'P':
+			model, ok = vPut(c, locus, model, 0)
+		case 'D':
+			model = vDelete(c, model)
+		default:
+			model, ok = vExpire(c, model)
+		}
+		if !ok || !vCheckCache(c, locus, model, max) {
 			return false
 		}
 	}
